@@ -107,6 +107,10 @@ def step (line : String) : String :=
     showContents (Git.moveUpdate (unhex date) (parseTargets files) (buildTree 8 (parseTreeEntries t)))
   | ["ghandler", t, date, dirs, files] =>
     showContents (Git.handlerUpdate (unhex date) (parseTargets dirs) (parseTargets files) (buildTree 8 (parseTreeEntries t)))
+  | ["gtrackcmd", t, date, dirs, files, carried, recorded] =>
+    let r := Git.trackCmd (unhex date) (parseTargets dirs) (parseTargets files) (parseTargets carried)
+      ⟨parseTargets recorded, buildTree 8 (parseTreeEntries t)⟩
+    showContents r.tree ++ "|" ++ ",".intercalate (r.recorded.map (fun x => hex (Git.joinSlash (x.dir ++ [x.name]))))
   | ["const", "common"] => hex Gen.COMMON_IGNORE_PATTERNS.toList
   | ["const", "xvcignore"] => hex Gen.XVCIGNORE_INITIAL_CONTENT.toList
   | ["const", "gitignore"] => hex Gen.GITIGNORE_INITIAL_CONTENT.toList
